@@ -17,7 +17,8 @@ MAKEFLAGS += -r
 REPO    ?= /repo
 VERIF   := $(abspath $(dir $(lastword $(MAKEFILE_LIST))))
 FLV     ?= dbg
-B       := $(VERIF)/build/$(FLV)
+BUILDROOT ?= $(VERIF)/build
+B       := $(BUILDROOT)/$(FLV)
 
 CXX_dbg  := g++
 CXX_rel  := g++
